@@ -229,91 +229,154 @@ def _clean_end_justified(fn, g, ret):
     return None
 
 
-def rule_short_fread(prog, fixture=False):
-    r = RuleResult("R-C09-2", "for every fread into a line buffer, the branch on `nread < len` returns a failure "
-                   "on its short edge, and every later decode_line call is dominated by the other edge",
-                   floor=0 if fixture else 2)
-    falsefns = _always_false_functions(prog)
-    for fn in _input_functions(prog):
-        cfg = fn.cfg
-        dom = None
+def _fread_sites(prog):
+    """(fn, fread call, result decl id or None, requested length expr, buffer expr)"""
+    for fn in prog.functions.values():
         for n in fn.walk():
-            rhs = None
-            var = None
-            if n.get("k") == "BinaryOperator" and n.get("op") == "=":
-                rhs = strip_all(n["c"][1])
-                t = strip_all(n["c"][0])
-                var = t.get("d") if t.get("k") == "DeclRefExpr" else None
-            elif n.get("k") == "VarDecl" and n.get("c"):
-                rhs = strip_all(n["c"][0])
-                var = n["d"]
-            if rhs is None or _callee(rhs) != "fread":
+            if _callee(n) != "fread":
                 continue
-            args = call_args(rhs)
+            args = call_args(n)
             if len(args) < 4:
                 continue
             size, count = args[1], args[2]
             want = count if folded(size) == 1 else (size if folded(count) == 1 else None)
-            key = "%s::%s::fread(%s)" % (fn.relfile(), fn.qn, show(args[0]))
-            if var is None or want is None:
-                r.add(key, fn.loc(n), False, "fread result is not kept, so a short read cannot be detected")
+            var = None
+            p = fn.parent(n)
+            while p is not None and p.get("k") in ("ImplicitCastExpr", "ParenExpr", "CStyleCastExpr"):
+                p = fn.parent(p)
+            if p is not None and p.get("k") == "BinaryOperator" and p.get("op") == "=" and strip_all(p["c"][1]) is n:
+                t = strip_all(p["c"][0])
+                var = t.get("d") if t.get("k") == "DeclRefExpr" else None
+            elif p is not None and p.get("k") == "VarDecl":
+                var = p["d"]
+            yield fn, n, var, want, args[0]
+
+
+def _short_read_branch(fn, call, var, want):
+    """(block, short successor, full successor) of the branch comparing the fread result with the length."""
+    cfg = fn.cfg
+    for bid in cfg.reachable():
+        b = cfg.blocks[bid]
+        if b.get("cond") is None or len(cfg.succ[bid]) != 2:
+            continue
+        cond = fn.nodes.get(b["cond"])
+        for outcome, si in ((True, 0), (False, 1)):
+            for f in atomise(cond, outcome):
+                if f[0] != "C":
+                    continue
+                l, rel, rr = f[1], f[2], f[3]
+
+                def is_res(e):
+                    e = strip_all(e)
+                    return e is call or (var is not None and e.get("k") == "DeclRefExpr" and e.get("d") == var)
+                if is_res(rr):
+                    l, rel, rr = rr, flow.SWAP[rel], l
+                if is_res(l) and rel in ("<", "!=") and same_expr(rr, want):
+                    return bid, cfg.succ[bid][si], cfg.succ[bid][1 - si]
+    return None
+
+
+def rule_short_fread(prog, fixture=False):
+    r = RuleResult("R-C09-2", "for every fread into a line buffer, the branch on `result < requested length` "
+                   "returns a failure on its short edge; every decode_line call is dominated by the full-read "
+                   "edge, directly or through a reader helper that reports success only on that edge",
+                   floor=0 if fixture else 1)
+    falsefns = _always_false_functions(prog)
+    readers = {}      # function key -> index of its buffer parameter, for helpers proven to fill it or fail
+    sites = list(_fread_sites(prog))
+    full_edges = {}   # fn.uid -> [(full successor block, buffer expr)]
+    for fn, call, var, want, bufexpr in sites:
+        cfg = fn.cfg
+        key = "%s::%s::fread(%s)" % (fn.relfile(), fn.qn, show(bufexpr))
+        if want is None:
+            r.add(key, fn.loc(call), False, "fread's element size/count are not `1, length`: a short read cannot be told apart")
+            continue
+        br = _short_read_branch(fn, call, var, want)
+        if br is None:
+            r.add(key, fn.loc(call), False, "no branch compares the fread result with the requested length %s" % show(want))
+            continue
+        bid, short_s, full_s = br
+        problem = None
+        seen, st = set(), [short_s]
+        while st and problem is None:
+            x = st.pop()
+            if x in seen or x < 0:
                 continue
-            # find the branch
-            found = None
-            for bid in cfg.reachable():
-                b = cfg.blocks[bid]
-                if b.get("cond") is None or len(cfg.succ[bid]) != 2:
-                    continue
-                cond = fn.nodes.get(b["cond"])
-                for outcome, si in ((True, 0), (False, 1)):
-                    for f in atomise(cond, outcome):
-                        if f[0] != "C":
-                            continue
-                        l, rel, rr = f[1], f[2], f[3]
-                        if strip_all(rr).get("k") == "DeclRefExpr" and strip_all(rr).get("d") == var:
-                            l, rel, rr = rr, flow.SWAP[rel], l
-                        ls = strip_all(l)
-                        if ls.get("k") == "DeclRefExpr" and ls.get("d") == var and rel in ("<", "!=") and same_expr(rr, want):
-                            found = (bid, cfg.succ[bid][si], cfg.succ[bid][1 - si])
-            if found is None:
-                r.add(key, fn.loc(n), False, "no branch compares the fread result with the requested length %s" % show(want))
+            seen.add(x)
+            if x == cfg.exit:
                 continue
-            bid, short_s, full_s = found
-            # short edge: every path must return a failure before decoding/reading more
-            problem = None
-            seen, st = set(), [short_s]
-            while st and problem is None:
-                x = st.pop()
-                if x in seen or x < 0:
-                    continue
-                seen.add(x)
-                if x == cfg.exit:
-                    continue
-                ret_here = False
-                for e in flow.element_nodes(fn, x):
-                    c = _callee(e)
-                    if c in DECODERS or c in INPUTS:
-                        problem = "after a short read the function can still reach %s (%s): the rest of the line " \
-                                  "would be taken from whatever the buffer held before" % (c, fn.loc(e))
-                        break
-                    if e.get("k") == "ReturnStmt":
-                        ret_here = True
-                        if not _is_failure_return(prog, fn, e, falsefns):
-                            problem = "a short read can end in a success return (%s)" % fn.loc(e)
-                if not ret_here:
-                    st.extend(cfg.succ[x])
-            # dominance of decode_line calls reachable from the fread
-            if problem is None:
-                dom = dom or cfg.dominators()
+            ret_here = False
+            for e in flow.element_nodes(fn, x):
+                c = _callee(e)
+                if c in DECODERS or c in INPUTS:
+                    problem = "after a short read the function can still reach %s (%s): the rest of the line " \
+                              "would be taken from whatever the buffer held before" % (c, fn.loc(e))
+                    break
+                if e.get("k") == "ReturnStmt":
+                    ret_here = True
+                    if not _is_failure_return(prog, fn, e, falsefns):
+                        problem = "a short read can end in a success return (%s)" % fn.loc(e)
+            if not ret_here:
+                st.extend(cfg.succ[x])
+        r.add(key, fn.loc(call), problem is None, problem or "short edge returns failure")
+        if problem is None:
+            full_edges.setdefault(fn.uid, []).append((full_s, bufexpr, bid))
+            # a reader helper: the buffer is a parameter and every success return lies on the full edge
+            b = strip_all(bufexpr)
+            if b.get("k") == "DeclRefExpr" and b.get("dk") == "ParmVar":
+                idx = [i for i, p_ in enumerate(fn.params) if p_["d"] == b.get("d")]
+                dom = cfg.dominators()
+                ok_helper = bool(idx)
                 for e in fn.walk():
-                    if _callee(e) in DECODERS:
+                    if e.get("k") == "ReturnStmt" and not _is_failure_return(prog, fn, e, falsefns):
                         pos = fn.where().get(e["i"])
-                        if pos and full_s >= 0 and full_s not in dom.get(pos[0], set()) and \
-                                flow.block_paths_reach(cfg, fn.where().get(rhs["i"], (bid,))[0], {pos[0]}):
-                            if not _passes_uses_buffer(e, args[0]):
-                                continue
-                            problem = "decode_line (%s) is not dominated by the full-read edge of the length check" % fn.loc(e)
-            r.add(key, fn.loc(n), problem is None, problem or "short edge returns failure; decode_line only on the full-read edge")
+                        if not (pos and full_s in dom.get(pos[0], set())):
+                            ok_helper = False
+                if ok_helper:
+                    readers[fn.key] = idx[0]
+    # every decode_line call sees a freshly and fully read buffer
+    for fn in prog.functions.values():
+        g = None
+        k = 0
+        for e in fn.walk():
+            if _callee(e) not in DECODERS:
+                continue
+            k += 1
+            key = "%s::%s::decode_line#%d" % (fn.relfile(), fn.qn, k)
+            pos = fn.where().get(e["i"])
+            dom = fn.cfg.dominators()
+            ok = False
+            why = ""
+            for full_s, bufexpr, bid in full_edges.get(fn.uid, []):
+                if _passes_uses_buffer(e, bufexpr) and pos and full_s >= 0 and full_s in dom.get(pos[0], set()):
+                    ok, why = True, "dominated by the full-read edge of fread"
+            if not ok:
+                g = g or Guards(fn)
+                for bid2 in fn.cfg.reachable():
+                    b2 = fn.cfg.blocks[bid2]
+                    if b2.get("cond") is None or len(fn.cfg.succ[bid2]) != 2:
+                        continue
+                    cond = fn.nodes.get(b2["cond"])
+                    for outcome, si in ((True, 0), (False, 1)):
+                        for f in atomise(cond, outcome):
+                            if f[0] == "T" and f[2] is True:
+                                c = strip_all(f[1])
+                                if c.get("k") == "CallExpr" and c.get("fn") in readers:
+                                    a = call_args(c)
+                                    bi = readers[c["fn"]]
+                                    s_ = fn.cfg.succ[bid2][si]
+                                    if bi < len(a) and _passes_uses_buffer(e, a[bi]) and pos and s_ in dom.get(pos[0], set()):
+                                        ok, why = True, "dominated by the success of reader %s" % _callee(c)
+            # decode_line on data that does not come from fread at all (e.g. tests) is out of scope:
+            # only flag when some fread fills a buffer that this call receives
+            feeds = any(_passes_uses_buffer(e, bx) for _, _, _, _, bx in [s for s in sites if s[0] is fn]) or \
+                any(c2.get("k") == "CallExpr" and c2.get("fn") in readers and
+                    readers[c2["fn"]] < len(call_args(c2)) and _passes_uses_buffer(e, call_args(c2)[readers[c2["fn"]]])
+                    for c2 in fn.walk())
+            if feeds or ok:
+                r.add(key, fn.loc(e), ok, why if ok else
+                      "decode_line is given a buffer that is not known to have been completely read: after a short "
+                      "read it would decode stale data")
     return r
 
 
@@ -368,11 +431,36 @@ def rule_static_state(prog, fixture=False):
         if not ws:
             r.add(key, where, True, "never written", nontrivial=False)
             continue
-        ok = all(w[3] == "fread" and w[4] == 0 for w in ws)
+        ok = all((w[3] == "fread" and w[4] == 0) or _only_fread_destination(prog, w[1], w[2], w[4]) for w in ws)
         r.add(key, where, ok, "written only by fread (destination buffer)" if ok else
               "mutable static state `%s` is written by %s in %s: data can leak from one input file into the next" %
               (q, ws[0][0], ws[0][1].qn))
     return r
+
+
+def _only_fread_destination(prog, caller, call, argidx):
+    """The callee uses its parameter #argidx solely as the destination of fread."""
+    if call is None or argidx is None or not call.get("fn"):
+        return False
+    ts = prog.resolve(caller, call["fn"])
+    if not ts:
+        return False
+    for t in ts:
+        if argidx >= len(t.params):
+            return False
+        pd = t.params[argidx]["d"]
+        uses = 0
+        for n in t.walk():
+            if n.get("k") == "DeclRefExpr" and n.get("d") == pd:
+                uses += 1
+                par = t.parent(n)
+                while par is not None and par.get("k") in ("ImplicitCastExpr", "ParenExpr", "CStyleCastExpr"):
+                    par = t.parent(par)
+                if not (par is not None and _callee(par) == "fread" and any(x is n for x in walk(call_args(par)[0]))):
+                    return False
+        if uses == 0:
+            return False
+    return True
 
 
 def rule_failures_propagate(prog, fixture=False):
@@ -579,10 +667,97 @@ def rule_table_contradiction(prog, fixture=False):
     return r
 
 
+# ---------------------------------------------------------------- R-C09-6
+def _extension_handlers(prog):
+    """Functions that expand a multi-byte token: they take the token cursor
+    (const unsigned char **input, unsigned char *len) and deliver the expansion
+    through a `const char **` out-parameter."""
+    out = []
+    for f in prog.functions.values():
+        ts = [(p.get("t") or "").replace(" ", "") for p in f.params]
+        cur = [p for p in f.params if (p.get("t") or "").replace(" ", "") == "constunsignedchar**"]
+        ln = [p for p in f.params if (p.get("t") or "").replace(" ", "") in ("unsignedchar*", "size_t*", "unsignedlong*", "unsignedint*")]
+        outp = [p for p in f.params if (p.get("t") or "").replace(" ", "") == "constchar**"]
+        if cur and ln and outp:
+            out.append((f, cur[0], ln[0]))
+    return out
+
+
+def _len_positive_edge(g, ln, edge):
+    for k in g.edge_facts.get(edge, ()):  # normalised facts established by taking this edge
+        f = g.rep.get(k)
+        if f is None:
+            continue
+        if f[0] == "T" and f[2] is True:
+            a = strip_all(f[1])
+            if a is not None and a.get("k") == "UnaryOperator" and a.get("op") == "*" and \
+                    (strip_all(a["c"][0]) or {}).get("d") == ln["d"]:
+                return True
+        if f[0] == "C":
+            for l, rel, r in ((f[1], f[2], f[3]), (f[3], flow.SWAP[f[2]], f[1])):
+                a = strip_all(l)
+                c = folded(r)
+                if a is not None and a.get("k") == "UnaryOperator" and a.get("op") == "*" and \
+                        (strip_all(a["c"][0]) or {}).get("d") == ln["d"] and c is not None:
+                    if (rel == ">" and c >= 0) or (rel == ">=" and c >= 1) or (rel == "!=" and c == 0):
+                        return True
+    return False
+
+
+def rule_extension_needs_byte(prog, fixture=False):
+    r = RuleResult("R-C09-6", "a handler of a multi-byte token reports success only on paths that found the "
+                   "follow-on byte present (an edge establishing *len > 0), or by delegating to another such "
+                   "handler: a token cut off by the end of the line is never expanded", floor=0 if fixture else 2)
+    hs = _extension_handlers(prog)
+    hkeys = {f.key for f, _, _ in hs}
+    for f, cur, ln in hs:
+        g = Guards(f)
+        cfg = f.cfg
+        # success returns
+        targets = {}
+        for n in f.walk():
+            if n.get("k") != "ReturnStmt" or not n.get("c"):
+                continue
+            e = strip_all(n["c"][0])
+            if e is not None and e.get("k") == "CallExpr" and e.get("fn") in hkeys:
+                continue  # delegation: decided in the callee
+            vs = c07.value_set(prog, f, n["c"][0])
+            if vs is not None and vs <= {0}:
+                continue
+            pos = g.position(n)
+            if pos is not None:
+                targets.setdefault(pos[0], []).append(n)
+        # reachability from the entry avoiding every len-positive edge
+        seen, todo = {cfg.entry}, [cfg.entry]
+        parent = {}
+        while todo:
+            b = todo.pop()
+            for s_ in cfg.succ[b]:
+                if s_ < 0 or s_ in seen or s_ not in cfg.blocks:
+                    continue
+                if _len_positive_edge(g, ln, (b, s_)):
+                    continue
+                seen.add(s_)
+                parent[s_] = b
+                todo.append(s_)
+        if not targets:
+            r.add("%s::%s::no-success-return" % (f.relfile(), f.qn), "%s:%d" % (f.relfile(), f.line), True,
+                  "never reports success itself")
+        for b, rets in targets.items():
+            for n in rets:
+                key = "%s::%s::success-return#%d" % (f.relfile(), f.qn, sorted(targets).index(b) + 1)
+                ok = b not in seen
+                r.add(key, f.loc(n), ok, "reached only after the follow-on byte was found present" if ok else
+                      "`%s` reports success on a path where *%s was never found positive: when the line ends "
+                      "right after the introducer byte the token is expanded instead of being diagnosed" %
+                      (show(n), ln["n"]))
+    return r
+
+
 def run(ctx):
     prog = ctx.prog("basic", "N")
     return [rule_eof_before_use(prog), rule_short_fread(prog), rule_static_state(prog),
-            rule_failures_propagate(prog), rule_table_contradiction(prog)]
+            rule_failures_propagate(prog), rule_table_contradiction(prog), rule_extension_needs_byte(prog)]
 
 
 SELFTESTS = [
@@ -590,4 +765,5 @@ SELFTESTS = [
     (rule_short_fread, ["c09_bad.c"], ["c09_good.c"], "fread"),
     (rule_static_state, ["c09_bad.c"], ["c09_good.c"], "carry"),
     (rule_failures_propagate, ["c09_bad.c"], ["c09_good.c"], "exitval"),
+    (rule_extension_needs_byte, ["c09_bad.c"], ["c09_good.c"], "handle_ext"),
 ]
